@@ -570,6 +570,18 @@ func (e *env) runFaults(cc *caseCtx, o *outcome, fs []fault) {
 					}
 				}
 			}
+			// ent_null: the other entities of the list are answered; a marked pair they bring along nested
+			if h.kind == e2e.KEntNull {
+				if g := c.Cfg.Subgraph(h.req.Subgraph); g != nil {
+					if _, nested, err := e2e.SelectedPairsNested(c.Cfg.SubSchema(g), h.req.Query); err == nil {
+						for tf := range nested {
+							if marked[tf] {
+								exact = false
+							}
+						}
+					}
+				}
+			}
 		}
 	}
 	for _, r := range res.Requests {
